@@ -192,10 +192,10 @@ def pattern_instances(tier):
     out = []
     Ls = [1, 2, 3] if tier == "quick" else [1, 2, 3, 4]
     for l in Ls:
-        out.append(Inst("atom_parse_ascii_l%d" % l, 12, "atom_parse_ascii::<%d>()" % l, ["C14"],
+        out.append(Inst("atom_parse_ascii_l%d" % l, l + 3, "atom_parse_ascii::<%d>()" % l, ["C14"],
                         {"L": l, "alphabet": "all 128 ASCII values", "case": "symbolic", "normalization": "symbolic"}, "matcher_pattern"))
     for l in Ls[1:]:
-        out.append(Inst("atom_new_ascii_l%d" % l, 12, "atom_new_ascii::<%d>()" % l, ["C14"],
+        out.append(Inst("atom_new_ascii_l%d" % l, l + 3, "atom_new_ascii::<%d>()" % l, ["C14"],
                         {"L": l, "alphabet": "all 128 ASCII values", "case": "symbolic", "normalization": "symbolic"}, "matcher_pattern"))
     return out
 
